@@ -84,7 +84,16 @@ theorem handleMergeConflict_step {cfg : Cfg} {m m' : M} {l : L} {b : Bool}
   · cases e; exact StepS.refl g
   · split at e
     · split at e
-      · cases e; exact ReachC.stepS ((Reach.start g).flushMP.upd rfl rfl rfl rfl rfl rfl)
+      · split at e
+        · cases e
+        · rename_i m1 e1
+          cases e
+          have r1 : Reach m m1 := by
+            unfold mcPendingHeader at e1
+            split at e1
+            · exact (emitHunkHeader_reachC e1 (Reach.start g)).1.toReach
+            · cases e1; exact Reach.start g
+          exact ReachC.stepS (r1.flushMP.upd rfl rfl rfl rfl rfl rfl)
       · cases e; exact StepS.refl g
     · split at e
       all_goals first
